@@ -76,7 +76,7 @@ build_flavour() {
     mv "$dir/simplace.tmp.$$" "$dir/simplace"
     echo "$stamp" > "$dir/link.stamp"
     # drop stale objects
-    ls "$dir/obj"/*.o 2>/dev/null | grep -v -F -f <(printf '%s\n' "${objs[@]}") | xargs -r rm -f
+    { ls "$dir/obj"/*.o 2>/dev/null | grep -v -F -f <(printf '%s\n' "${objs[@]}") | xargs -r rm -f; } || true
   fi
 }
 
